@@ -112,6 +112,143 @@ theorem locality_compare {Sym : Type} {c : Cfg} (hv : CValid c)
   · intro i hmi hqi
     rw [locality_get hv ms x hms hx, locality_get hv ms' x' hms' hx', ← hlen, hmi, hqi]
 
+/-! ## whether and when the data runs out does not depend on the contents of the data -/
+
+/-- two bit buffers hold the same number of leftover bits -/
+def SameShape (a b : Nat) : Prop := ∀ k, a < 2^k ↔ b < 2^k
+
+theorem SameShape.refl (a : Nat) : SameShape a a := fun _ => Iff.rfl
+
+/-- `a * 2^m + r < 2^k ↔ a < 2^(k-m)` for `r < 2^m`, `m ≤ k` -/
+theorem shifted_lt_iff {a r m k : Nat} (hr : r < 2^m) (hmk : m ≤ k) :
+    a * 2^m + r < 2^k ↔ a < 2^(k - m) := by
+  rw [pow_split hmk]
+  constructor
+  · intro h
+    rcases Nat.lt_or_ge a (2^(k - m)) with h' | h'
+    · exact h'
+    · have : 2^(k - m) * 2^m ≤ a * 2^m := Nat.mul_le_mul_right _ h'
+      omega
+  · intro h
+    have h3 : (a + 1) * 2^m ≤ 2^(k - m) * 2^m := Nat.mul_le_mul_right _ h
+    have h4 : (a + 1) * 2^m = a * 2^m + 2^m := by rw [Nat.add_mul, Nat.one_mul]
+    omega
+
+/-- One step of the bit buffer on two buffers of the same shape over stacks of the same height:
+    both fail or both succeed, and the shapes / heights agree again. -/
+theorem takeChunk_shape {c : Cfg} (hv : CValid c) {hc hc' : Nat} {comp comp' : List Nat}
+    (h1 : 1 ≤ hc) (h2 : hc < 2^c.W) (h1' : 1 ≤ hc') (h2' : hc' < 2^c.W)
+    (hw : Words c.W comp) (hw' : Words c.W comp')
+    (hs : SameShape hc hc') (hl : comp.length = comp'.length) :
+    (takeChunk c hc comp = .error .outOfData ∧ takeChunk c hc' comp' = .error .outOfData) ∨
+    ∃ w a r w' a' r', takeChunk c hc comp = .ok (w, a, r) ∧ takeChunk c hc' comp' = .ok (w', a', r') ∧
+      1 ≤ a ∧ a < 2^c.W ∧ 1 ≤ a' ∧ a' < 2^c.W ∧ Words c.W r ∧ Words c.W r' ∧
+      SameShape a a' ∧ r.length = r'.length := by
+  obtain ⟨hP1, hPB, hBW, hS⟩ := hv
+  have hPW : c.P ≤ c.W := by omega
+  by_cases hEq : c.P = c.W
+  · cases comp with
+    | nil =>
+      cases comp' with
+      | nil => left; simp [takeChunk, hEq]
+      | cons _ _ => simp at hl
+    | cons w r =>
+      cases comp' with
+      | nil => simp at hl
+      | cons w' r' =>
+        right
+        refine ⟨w, hc, r, w', hc', r', by simp [takeChunk, hEq], by simp [takeChunk, hEq],
+          h1, h2, h1', h2', hw.tail, hw'.tail, hs, by simpa using hl⟩
+  · have hlt : c.P < c.W := by omega
+    have e1 : shlT c.W 1 c.P = 2^c.P := shlT_one hlt
+    have hA : 0 < 2^c.P := pow_pos2 _
+    have hB : 0 < 2^(c.W - c.P) := pow_pos2 _
+    have hsplit : 2^c.W = 2^(c.W - c.P) * 2^c.P := pow_split hPW
+    by_cases hlow : hc < 2^c.P
+    · have hlow' : hc' < 2^c.P := (hs c.P).mp hlow
+      cases comp with
+      | nil =>
+        cases comp' with
+        | nil => left; simp [takeChunk, hEq, e1, hlow, hlow']
+        | cons _ _ => simp at hl
+      | cons w r =>
+        cases comp' with
+        | nil => simp at hl
+        | cons w' r' =>
+          right
+          have step : ∀ (x wd : Nat), 1 ≤ x → x < 2^c.P → wd < 2^c.W →
+              wd / 2^c.P < 2^(c.W - c.P) ∧
+              shlT c.W x (c.W - c.P) ||| (wd >>> c.P) = x * 2^(c.W - c.P) + wd / 2^c.P ∧
+              2^(c.W - c.P) ≤ x * 2^(c.W - c.P) + wd / 2^c.P ∧
+              x * 2^(c.W - c.P) + wd / 2^c.P < 2^c.W := by
+            intro x wd hx1 hx2 hwd
+            have hdiv : wd / 2^c.P < 2^(c.W - c.P) := by
+              apply Nat.div_lt_of_lt_mul; rw [Nat.mul_comm, ← hsplit]; exact hwd
+            have hnt : x * 2^(c.W - c.P) < 2^c.W := by
+              rw [pow_split' hPW]; exact Nat.mul_lt_mul_of_pos_right hx2 hB
+            refine ⟨hdiv, by rw [shlT_of_lt hnt, shr_eq, or_eq_add hdiv], ?_, ?_⟩
+            · have : 1 * 2^(c.W - c.P) ≤ x * 2^(c.W - c.P) := Nat.mul_le_mul_right _ hx1
+              rw [Nat.one_mul] at this
+              exact Nat.le_trans this (Nat.le_add_right _ _)
+            · exact (shifted_lt_iff hdiv (by omega)).mpr (by
+                have : c.W - (c.W - c.P) = c.P := by omega
+                rw [this]; exact hx2)
+          obtain ⟨hd, ev, hge, hlt2⟩ := step hc w h1 hlow hw.head
+          obtain ⟨hd', ev', hge', hlt2'⟩ := step hc' w' h1' hlow' hw'.head
+          have hne : hc * 2^(c.W - c.P) + w / 2^c.P ≠ 0 := by omega
+          have hne' : hc' * 2^(c.W - c.P) + w' / 2^c.P ≠ 0 := by omega
+          refine ⟨w, _, r, w', _, r', ?_, ?_, by omega, hlt2, by omega, hlt2', hw.tail, hw'.tail, ?_,
+            by simpa using hl⟩
+          · unfold takeChunk
+            rw [if_pos (Or.inr (e1 ▸ hlow))]
+            simp only [ne_eq, hEq, not_false_eq_true, if_true, ev]
+            rw [if_neg hne]
+          · unfold takeChunk
+            rw [if_pos (Or.inr (e1 ▸ hlow'))]
+            simp only [ne_eq, hEq, not_false_eq_true, if_true, ev']
+            rw [if_neg hne']
+          · intro k
+            by_cases hk : c.W - c.P ≤ k
+            · rw [shifted_lt_iff hd hk, shifted_lt_iff hd' hk]; exact hs _
+            · have : 2^k < 2^(c.W - c.P) := pow_lt2 (by omega)
+              constructor <;> intro h <;> omega
+    · have hlow' : ¬ hc' < 2^c.P := fun h => hlow ((hs c.P).mpr h)
+      right
+      have step : ∀ (x : Nat), ¬ x < 2^c.P → x < 2^c.W →
+          1 ≤ x / 2^c.P ∧ x / 2^c.P < 2^c.W := by
+        intro x hx1 hx2
+        refine ⟨(Nat.one_le_div_iff hA).mpr (by omega), ?_⟩
+        exact Nat.lt_of_le_of_lt (Nat.div_le_self _ _) hx2
+      obtain ⟨ha1, ha2⟩ := step hc hlow h2
+      obtain ⟨ha1', ha2'⟩ := step hc' hlow' h2'
+      have hne : hc / 2^c.P ≠ 0 := by omega
+      have hne' : hc' / 2^c.P ≠ 0 := by omega
+      refine ⟨hc, _, comp, hc', _, comp', ?_, ?_, ha1, ha2, ha1', ha2', hw, hw', ?_, hl⟩
+      · simp [takeChunk, hEq, e1, hlow, shr_eq, hne]
+      · simp [takeChunk, hEq, e1, hlow', shr_eq, hne']
+      · intro k
+        rw [Nat.div_lt_iff_lt_mul hA, Nat.div_lt_iff_lt_mul hA, ← Nat.pow_add]
+        exact hs _
+
+/-- **Whether and when the coder runs out of data depends only on the amount of data**, not on
+    its contents: bit buffers of the same shape over stacks of the same height hand out the
+    same number of chunks. -/
+theorem quantiles_length_shape {c : Cfg} (hv : CValid c) :
+    ∀ (n hc hc' : Nat) (comp comp' : List Nat),
+      1 ≤ hc → hc < 2^c.W → 1 ≤ hc' → hc' < 2^c.W → Words c.W comp → Words c.W comp' →
+      SameShape hc hc' → comp.length = comp'.length →
+      (quantiles c n hc comp).length = (quantiles c n hc' comp').length := by
+  intro n
+  induction n with
+  | zero => intros; simp [quantiles]
+  | succ n ih =>
+    intro hc hc' comp comp' h1 h2 h1' h2' hw hw' hs hl
+    rcases takeChunk_shape hv h1 h2 h1' h2' hw hw' hs hl with
+      ⟨he, he'⟩ | ⟨w, a, r, w', a', r', ht, ht', ha1, ha2, ha1', ha2', hr, hr', hs2, hl2⟩
+    · simp [quantiles, he, he']
+    · simp only [quantiles, ht, ht', List.length_cons]
+      rw [ih a a' r r' ha1 ha2 ha1' ha2' hr hr' hs2 hl2]
+
 /-- when `PRECISION == Word::BITS` the chunks are simply the words of the compressed stack -/
 theorem quantiles_word_aligned {c : Cfg} (hv : CValid c) (hPW : c.P = c.W) :
     ∀ (n hc : Nat) (comp : List Nat), Words c.W comp →
